@@ -1,4 +1,5 @@
 import ExprModel.Drv.Arith
+import ExprModel.Drv.Determinism
 /-
 The model driver: one request per line on stdin (an S-expression `(tag arg…)`), one response per line
 on stdout.  Core-only (no Mathlib, no proof modules), so it links as a `lean_exe` and keeps building
@@ -8,6 +9,7 @@ open ExprModel
 
 def handlers : List (String × (List Sexp → Sexp)) :=
   Drv.arithHandlers
+  ++ Drv.determinismHandlers
 
 def dispatch (req : Sexp) : Sexp :=
   match req with
